@@ -264,6 +264,30 @@ func (ex *Exec) satModelNoFlush(extra ...*T) (smt.Result, map[string]uint64) {
 			want = append(want, t.Args[0])
 		}
 	}
+	if len(want) > 2000 {
+		// a decoder that filled a maximum-size buffer has read tens of thousands of input octets that occur in no
+		// constraint: any value satisfies them (the native replay reads absent inputs as 0), so only the values of
+		// terms that occur in the query are asked for
+		seen := map[int]bool{}
+		var stack []*T
+		stack = append(stack, as...)
+		for len(stack) > 0 {
+			t := stack[len(stack)-1]
+			stack = stack[:len(stack)-1]
+			if seen[t.ID] {
+				continue
+			}
+			seen[t.ID] = true
+			stack = append(stack, t.Args...)
+		}
+		kept := want[:0:0]
+		for _, t := range want {
+			if seen[t.ID] {
+				kept = append(kept, t)
+			}
+		}
+		want = kept
+	}
 	r, m := ex.S.Check(as, want)
 	if r != smt.Sat {
 		return r, nil
